@@ -10,6 +10,11 @@ package objectdeployments
 // Revisions can be terminating (deletionTimestamp set by an earlier pruning round, finalizer held,
 // still listed) in any position.  Multi-round histories (prune, revision still terminating, prune
 // again, ...) are in zz_verif_c08_hist_test.go (stream "hist").
+// The objects of a revision live inline in spec.phases[*].objects and/or in REAL (Cluster)ObjectSlice
+// objects of the in-memory store that spec.phases[*].slices reference by name (what package-operator
+// produces for packages > 1 MiB or with the EachObject chunking strategy); a referenced slice may be
+// missing (Get returns NotFound).  Scenarios can be cluster-scoped (ClusterObjectDeployment /
+// ClusterObjectSet / ClusterObjectSlice through NewClusterObjectDeploymentController).
 
 import (
 	"context"
@@ -34,24 +39,27 @@ import (
 )
 
 type c08Rev struct {
-	Rev int64  `json:"rev"` // status.revision
-	Av  bool   `json:"av"`  // Available=True
-	Sp  bool   `json:"sp"`  // Paused=True
-	Lc  string `json:"lc"`  // A | P | X  (spec.lifecycleState)
-	Pbp bool   `json:"pbp"` // paused-by-parent annotation
-	Co  []int  `json:"co"`  // status.controllerOf keys; null = nil slice, [] = empty non-nil slice
-	Obj []int  `json:"obj"` // keys of the objects in spec.phases
-	Hm  bool   `json:"hm"`  // hash annotation equals the deployment's status.templateHash
-	Dt  bool   `json:"dt"`  // deletionTimestamp set: deleted in an earlier round, teardown pending, still listed
+	Rev int64  `json:"rev"`          // status.revision
+	Av  bool   `json:"av"`           // Available=True
+	Sp  bool   `json:"sp"`           // Paused=True
+	Lc  string `json:"lc"`           // A | P | X  (spec.lifecycleState)
+	Pbp bool   `json:"pbp"`          // paused-by-parent annotation
+	Co  []int  `json:"co"`           // status.controllerOf keys; null = nil slice, [] = empty non-nil slice
+	Obj []int  `json:"obj"`          // keys of the objects INLINE in spec.phases[*].objects
+	Hm  bool   `json:"hm"`           // hash annotation equals the deployment's status.templateHash
+	Dt  bool   `json:"dt"`           // deletionTimestamp set: deleted in an earlier round, teardown pending, still listed
+	Sl  []int  `json:"sl,omitempty"` // keys of the objects that live in ObjectSlices referenced by spec.phases[*].slices
+	Sm  bool   `json:"sm,omitempty"` // the phases also reference an ObjectSlice that does not exist
 }
 
 type c08Scn struct {
 	Via   string   `json:"via"` // arch | ctrl
 	Revs  []c08Rev `json:"revs"`
-	Cur   bool     `json:"cur"`   // arch: last element is currentObjectSet (else nil is passed)
-	Odp   bool     `json:"odp"`   // ctrl: deployment spec.paused
-	Limit *int32   `json:"limit"` // spec.revisionHistoryLimit
-	Fin   bool     `json:"fin"`   // ObjectSets carry a finalizer
+	Cur   bool     `json:"cur"`          // arch: last element is currentObjectSet (else nil is passed)
+	Odp   bool     `json:"odp"`          // ctrl: deployment spec.paused
+	Limit *int32   `json:"limit"`        // spec.revisionHistoryLimit
+	Fin   bool     `json:"fin"`          // ObjectSets carry a finalizer
+	Cl    bool     `json:"cl,omitempty"` // cluster-scoped kinds (ClusterObjectDeployment / ClusterObjectSet / ClusterObjectSlice)
 }
 
 const (
@@ -60,10 +68,25 @@ const (
 	c08NS     = "ns"
 )
 
-func c08ObjectSet(i int, r c08Rev) *corev1alpha1.ObjectSet {
+// c08Obj is the object with key k as it is written into an ObjectSet phase or an ObjectSlice: the
+// namespace is left empty for even keys (defaulted to the ObjectSet's namespace by the reader).
+func c08Obj(k int) corev1alpha1.ObjectSetObject {
+	u := unstructured.Unstructured{}
+	u.SetGroupVersionKind(schema.GroupVersionKind{Version: "v1", Kind: "ConfigMap"})
+	u.SetName("k" + strconv.Itoa(k))
+	if k%2 == 1 {
+		u.SetNamespace(c08NS)
+	}
+	return corev1alpha1.ObjectSetObject{Object: u}
+}
+
+// c08ObjectSet builds the ObjectSet of revision i and the ObjectSlice objects its phases reference.
+// The store keeps both as namespaced kinds; a cluster-scoped scenario (ns == "") is served as
+// ClusterObjectSet / ClusterObjectSlice by the client.
+func c08ObjectSet(i int, r c08Rev, ns string) (*corev1alpha1.ObjectSet, []*corev1alpha1.ObjectSlice) {
 	os := &corev1alpha1.ObjectSet{}
 	os.Name = "r" + strconv.Itoa(i)
-	os.Namespace = c08NS
+	os.Namespace = ns
 	os.Generation = 1
 	os.Status.Revision = r.Rev
 	ann := map[string]string{}
@@ -89,24 +112,46 @@ func c08ObjectSet(i int, r c08Rev) *corev1alpha1.ObjectSet {
 		} // else: left empty, which is neither paused nor archived
 	}
 	c08SetStatus(os, i, r.Av, r.Sp, r.Co)
-	// objects: first key in phase "a", the rest in phase "b"; namespace left empty for even keys
-	// (getObjects defaults it to the ObjectSet's namespace).
+	// inline objects: first key in phase "a", the rest in phase "b"; namespace left empty for even
+	// keys (getObjects defaults it to the ObjectSet's namespace).
 	var phases []corev1alpha1.ObjectSetTemplatePhase
+	phase := func(j int) *corev1alpha1.ObjectSetTemplatePhase {
+		for len(phases) <= j {
+			phases = append(phases, corev1alpha1.ObjectSetTemplatePhase{Name: []string{"a", "b"}[len(phases)]})
+		}
+		return &phases[j]
+	}
 	for j, k := range r.Obj {
-		u := unstructured.Unstructured{}
-		u.SetGroupVersionKind(schema.GroupVersionKind{Version: "v1", Kind: "ConfigMap"})
-		u.SetName("k" + strconv.Itoa(k))
-		if k%2 == 1 {
-			u.SetNamespace(c08NS)
+		p := phase(min(j, 1))
+		p.Objects = append(p.Objects, c08Obj(k))
+	}
+	// sliced objects: first key in ObjectSlice "<name>-s0" referenced by phase "a", the rest in
+	// "<name>-s1" referenced by phase "b" (a phase may hold inline objects and slices, or slices only).
+	var slices []*corev1alpha1.ObjectSlice
+	for j, k := range r.Sl {
+		j = min(j, 1)
+		name := os.Name + "-s" + strconv.Itoa(j)
+		p := phase(j)
+		if len(p.Slices) == 0 || p.Slices[len(p.Slices)-1] != name {
+			p.Slices = append(p.Slices, name)
+			sl := &corev1alpha1.ObjectSlice{}
+			sl.Name = name
+			sl.Namespace = ns
+			slices = append(slices, sl)
 		}
-		o := corev1alpha1.ObjectSetObject{Object: u}
-		if j == 0 {
-			phases = append(phases, corev1alpha1.ObjectSetTemplatePhase{Name: "a"})
-		} else if j == 1 {
-			phases = append(phases, corev1alpha1.ObjectSetTemplatePhase{Name: "b"})
+		sl := slices[len(slices)-1]
+		sl.Objects = append(sl.Objects, c08Obj(k))
+	}
+	if r.Sm {
+		// a referenced ObjectSlice that does not exist: in front of the existing ones (even i) or
+		// behind them (odd i)
+		if i%2 == 0 {
+			p := phase(0)
+			p.Slices = append([]string{os.Name + "-sx"}, p.Slices...)
+		} else {
+			p := phase(max(len(phases)-1, 0))
+			p.Slices = append(p.Slices, os.Name+"-sx")
 		}
-		p := &phases[len(phases)-1]
-		p.Objects = append(p.Objects, o)
 	}
 	os.Spec.Phases = phases
 	if r.Dt {
@@ -116,7 +161,15 @@ func c08ObjectSet(i int, r c08Rev) *corev1alpha1.ObjectSet {
 		os.DeletionTimestamp = &ts
 		os.Finalizers = []string{"package-operator.run/cached"}
 	}
-	return os
+	return os, slices
+}
+
+// c08RefNS: namespace of key k in a status.controllerOf entry of an ObjectSet living in ns.
+func c08RefNS(k int, ns string) string {
+	if k%2 == 1 {
+		return c08NS
+	}
+	return ns
 }
 
 // c08SetStatus writes what the ObjectSet controller reports: Available / Paused conditions and
@@ -146,7 +199,7 @@ func c08SetStatus(os *corev1alpha1.ObjectSet, i int, av, sp bool, co []int) {
 		os.Status.ControllerOf = make([]corev1alpha1.ControlledObjectReference, 0, len(co))
 		for _, k := range co {
 			os.Status.ControllerOf = append(os.Status.ControllerOf, corev1alpha1.ControlledObjectReference{
-				Kind: "ConfigMap", Group: "", Name: "k" + strconv.Itoa(k), Namespace: c08NS,
+				Kind: "ConfigMap", Group: "", Name: "k" + strconv.Itoa(k), Namespace: c08RefNS(k, os.Namespace),
 			})
 		}
 	}
@@ -156,18 +209,82 @@ func c08SetStatus(os *corev1alpha1.ObjectSet, i int, av, sp bool, co []int) {
 // interface), which verifkit.Guard turns into a PANIC line.
 type c08Client struct {
 	client.Client
-	fin   bool
-	items []*corev1alpha1.ObjectSet // API listing order
-	store map[string]*corev1alpha1.ObjectSet
-	gone  map[string]bool
-	log   []string
+	fin     bool
+	cluster bool                      // serve the store as cluster-scoped kinds
+	items   []*corev1alpha1.ObjectSet // API listing order
+	store   map[string]*corev1alpha1.ObjectSet
+	gone    map[string]bool
+	slices  map[string]*corev1alpha1.ObjectSlice // the ObjectSlice objects that exist, by name
+	gets    int                                  // ObjectSlice reads
+	log     []string
+}
+
+func c08NewClient(fin, cluster bool) *c08Client {
+	return &c08Client{fin: fin, cluster: cluster, store: map[string]*corev1alpha1.ObjectSet{}, gone: map[string]bool{},
+		slices: map[string]*corev1alpha1.ObjectSlice{}}
+}
+
+func (c *c08Client) ns() string {
+	if c.cluster {
+		return ""
+	}
+	return c08NS
+}
+
+// add puts a new ObjectSet and its ObjectSlices into the store.
+func (c *c08Client) add(os *corev1alpha1.ObjectSet, slices []*corev1alpha1.ObjectSlice) {
+	c.items = append(c.items, os)
+	c.store[os.Name] = os
+	for _, sl := range slices {
+		c.slices[sl.Name] = sl
+	}
+}
+
+func c08ToCluster(os *corev1alpha1.ObjectSet) *corev1alpha1.ClusterObjectSet {
+	cp := os.DeepCopy()
+	return &corev1alpha1.ClusterObjectSet{ObjectMeta: cp.ObjectMeta,
+		Spec: corev1alpha1.ClusterObjectSetSpec(cp.Spec), Status: corev1alpha1.ClusterObjectSetStatus(cp.Status)}
+}
+
+func c08FromCluster(os *corev1alpha1.ClusterObjectSet) *corev1alpha1.ObjectSet {
+	cp := os.DeepCopy()
+	return &corev1alpha1.ObjectSet{ObjectMeta: cp.ObjectMeta,
+		Spec: corev1alpha1.ObjectSetSpec(cp.Spec), Status: corev1alpha1.ObjectSetStatus(cp.Status)}
+}
+
+// Get serves (Cluster)ObjectSlice reads only: NotFound for a slice that does not exist, and for the
+// kind / namespace that does not match the scope of the scenario.
+func (c *c08Client) Get(_ context.Context, key client.ObjectKey, obj client.Object, _ ...client.GetOption) error {
+	notFound := apierrors.NewNotFound(schema.GroupResource{Group: "package-operator.run", Resource: "objectslices"}, key.Name)
+	sl, ok := c.slices[key.Name]
+	switch o := obj.(type) {
+	case *corev1alpha1.ObjectSlice:
+		c.gets++
+		if !ok || c.cluster || key.Namespace != c08NS {
+			return notFound
+		}
+		sl.DeepCopyInto(o)
+	case *corev1alpha1.ClusterObjectSlice:
+		c.gets++
+		if !ok || !c.cluster || key.Namespace != "" {
+			return notFound
+		}
+		cp := sl.DeepCopy()
+		*o = corev1alpha1.ClusterObjectSlice{ObjectMeta: cp.ObjectMeta, Objects: cp.Objects}
+	default:
+		panic(fmt.Sprintf("unexpected Get of %T", obj))
+	}
+	return nil
 }
 
 func c08Idx(name string) string { return strings.TrimPrefix(name, "r") }
 
 func (c *c08Client) write(obj client.Object) error {
 	os, ok := obj.(*corev1alpha1.ObjectSet)
-	if !ok {
+	if cos, isCluster := obj.(*corev1alpha1.ClusterObjectSet); isCluster && c.cluster {
+		os, ok = c08FromCluster(cos), true
+	}
+	if !ok || c.cluster != (os.Namespace == "") {
 		c.log = append(c.log, "x"+obj.GetName())
 		return nil
 	}
@@ -225,17 +342,61 @@ func (c *c08Client) Delete(_ context.Context, obj client.Object, _ ...client.Del
 }
 
 func (c *c08Client) List(_ context.Context, list client.ObjectList, _ ...client.ListOption) error {
-	l, ok := list.(*corev1alpha1.ObjectSetList)
-	if !ok {
+	switch l := list.(type) {
+	case *corev1alpha1.ObjectSetList:
+		l.Items = l.Items[:0]
+		for _, it := range c.items {
+			if !c.gone[it.Name] && !c.cluster {
+				l.Items = append(l.Items, *c.store[it.Name].DeepCopy())
+			}
+		}
+	case *corev1alpha1.ClusterObjectSetList:
+		l.Items = l.Items[:0]
+		for _, it := range c.items {
+			if !c.gone[it.Name] && c.cluster {
+				l.Items = append(l.Items, *c08ToCluster(c.store[it.Name]))
+			}
+		}
+	default:
 		panic(fmt.Sprintf("unexpected list type %T", list))
 	}
-	l.Items = l.Items[:0]
-	for _, it := range c.items {
-		if !c.gone[it.Name] {
-			l.Items = append(l.Items, *c.store[it.Name].DeepCopy())
-		}
-	}
 	return nil
+}
+
+// c08Controller: the REAL ObjectDeployment controller of the scenario's scope with the archive
+// reconciler (as the constructor wires it) as the only sub-reconciler of its objectSetReconciler.
+func c08Controller(c *c08Client) (*objectSetReconciler, *archiveReconciler) {
+	var ctl *GenericObjectDeploymentController
+	if c.cluster {
+		ctl = NewClusterObjectDeploymentController(c, logr.Discard(), c08Scheme)
+	} else {
+		ctl = NewObjectDeploymentController(c, logr.Discard(), c08Scheme)
+	}
+	osr := ctl.reconciler[1].(*objectSetReconciler)
+	ar := osr.reconcilers[1].(*archiveReconciler)
+	osr.reconcilers = []objectSetSubReconciler{ar}
+	return osr, ar
+}
+
+// c08Deployment: the (Cluster)ObjectDeployment the pass runs for.
+func c08Deployment(c *c08Client, limit *int32, paused bool) adapters.ObjectDeploymentAccessor {
+	if c.cluster {
+		od := &adapters.ClusterObjectDeployment{}
+		od.Name = "od"
+		od.Generation = 1
+		od.Spec.RevisionHistoryLimit = limit
+		od.Spec.Paused = paused
+		od.Status.TemplateHash = c08Hash
+		return od
+	}
+	od := &adapters.ObjectDeployment{}
+	od.Name = "od"
+	od.Namespace = c08NS
+	od.Generation = 1
+	od.Spec.RevisionHistoryLimit = limit
+	od.Spec.Paused = paused
+	od.Status.TemplateHash = c08Hash
+	return od
 }
 
 var c08Scheme = func() *runtime.Scheme {
@@ -247,23 +408,17 @@ var c08Scheme = func() *runtime.Scheme {
 }()
 
 func c08Exec(s c08Scn) string {
-	c := &c08Client{fin: s.Fin, store: map[string]*corev1alpha1.ObjectSet{}, gone: map[string]bool{}}
+	c := c08NewClient(s.Fin, s.Cl)
 	for i, r := range s.Revs {
-		os := c08ObjectSet(i, r)
+		os, slices := c08ObjectSet(i, r, c.ns())
 		if s.Fin || r.Dt {
 			os.Finalizers = []string{"package-operator.run/cached"}
 		}
-		c.items = append(c.items, os)
-		c.store[os.Name] = os
+		c.add(os, slices)
 	}
 	ctx := logr.NewContext(context.Background(), logr.Discard())
-	od := &adapters.ObjectDeployment{}
-	od.Name = "od"
-	od.Namespace = c08NS
-	od.Generation = 1
-	od.Spec.RevisionHistoryLimit = s.Limit
-	od.Spec.Paused = s.Odp
-	od.Status.TemplateHash = c08Hash
+	od := c08Deployment(c, s.Limit, s.Odp)
+	osr, ar := c08Controller(c)
 	var err error
 	switch s.Via {
 	case "arch":
@@ -272,7 +427,11 @@ func c08Exec(s c08Scn) string {
 		n := len(s.Revs)
 		objectSets := make([]adapters.ObjectSetAccessor, n)
 		for i := range s.Revs {
-			objectSets[i] = &adapters.ObjectSetAdapter{ObjectSet: *c.items[i].DeepCopy()}
+			if c.cluster {
+				objectSets[i] = &adapters.ClusterObjectSetAdapter{ClusterObjectSet: *c08ToCluster(c.items[i])}
+			} else {
+				objectSets[i] = &adapters.ObjectSetAdapter{ObjectSet: *c.items[i].DeepCopy()}
+			}
 		}
 		var cur adapters.ObjectSetAccessor
 		prev := objectSets
@@ -280,13 +439,9 @@ func c08Exec(s c08Scn) string {
 			cur = objectSets[n-1]
 			prev = objectSets[0 : n-1]
 		}
-		r := &archiveReconciler{client: c}
-		_, err = r.Reconcile(ctx, cur, prev, od)
+		// the archive reconciler exactly as the controller's constructor wires it
+		_, err = ar.Reconcile(ctx, cur, prev, od)
 	case "ctrl":
-		ctl := NewObjectDeploymentController(c, logr.Discard(), c08Scheme)
-		osr := ctl.reconciler[1].(*objectSetReconciler)
-		ar := osr.reconcilers[1].(*archiveReconciler)
-		osr.reconcilers = []objectSetSubReconciler{ar}
 		_, err = osr.Reconcile(ctx, od)
 	default:
 		return "BAD-VIA"
@@ -331,6 +486,20 @@ func c08Tags(s c08Scn, out string) []string {
 			tags = append(tags, "terminating-listed")
 			break
 		}
+	}
+	sliced, missing := false, false
+	for _, rv := range s.Revs {
+		sliced = sliced || len(rv.Sl) > 0
+		missing = missing || rv.Sm
+	}
+	if sliced {
+		tags = append(tags, "objects-in-slices")
+	}
+	if missing {
+		tags = append(tags, "slice-missing")
+	}
+	if s.Cl {
+		tags = append(tags, "cluster-scoped")
 	}
 	body := strings.SplitN(out, ";", 2)[0]
 	seen := map[string]bool{}
@@ -381,6 +550,20 @@ var c08Flags = func() [][3]interface{} {
 }()
 
 func c08P(v int32) *int32 { return &v }
+
+// c08Split moves a random subset of the keys (often all of them) into ObjectSlices.
+func c08Split(intn func(int) int, keys []int) (inline, sliced []int) {
+	inline = []int{}
+	all := intn(2) == 0
+	for _, k := range keys {
+		if all || intn(2) == 0 {
+			sliced = append(sliced, k)
+		} else {
+			inline = append(inline, k)
+		}
+	}
+	return inline, sliced
+}
 
 // limits worth trying for n listed revisions
 func c08Limits(n int) []*int32 {
@@ -560,6 +743,100 @@ func TestVerifC08(t *testing.T) {
 		r.Extra["exhaustive_terminating_count"] = count
 	}
 
+	// ---- 1c. objects in ObjectSlices: strictly ascending chains of length 2..3, a 4-row flag table of
+	// every revision x every controllerOf relation of every adjacent pair (nil / empty / disjoint /
+	// overlapping the next revision's own key) x WHERE the objects of every revision live (inline /
+	// in a slice / mixed with the shared key inline / mixed with the shared key in a slice / two
+	// slices, each with and without a missing slice) x both entry points, namespaced and
+	// cluster-scoped kinds.
+	{
+		type fl struct {
+			lc     string
+			av, sp bool
+		}
+		red := []fl{{"X", false, true}, {"P", false, true}, {"A", true, false}, {"A", false, false}}
+		// placement of the objects of revision j (own key k = j%3, extra key 3+j)
+		place := func(j, pl int) (obj, sl []int, sm bool) {
+			k, x := j%3, 3+j
+			sm = pl >= 5
+			switch pl % 5 {
+			case 0:
+				obj = []int{k}
+			case 1:
+				sl = []int{k}
+			case 2:
+				obj, sl = []int{x}, []int{k}
+			case 3:
+				obj, sl = []int{k}, []int{x}
+			default:
+				sl = []int{x, k}
+			}
+			if obj == nil {
+				obj = []int{}
+			}
+			return
+		}
+		count = 0
+		cyc = 0
+		limits := []*int32{nil, c08P(0), c08P(1)}
+		for n := 2; n <= 3; n++ {
+			// placements tried for the revisions 1..n-1 (those that are a "next newer" revision)
+			pls := []int{0, 1, 2, 3, 4, 5, 6, 7, 8, 9}
+			if n == 3 {
+				pls = [][]int{{0, 1, 2, 6}, {0, 1, 2, 4, 6, 9}}[r.Pick(0, 1)]
+			}
+			total := 1
+			for i := 0; i < n; i++ {
+				total *= len(red)
+			}
+			npl := 2
+			for i := 1; i < n; i++ {
+				npl *= len(pls)
+			}
+			nco := 1
+			for i := 0; i < n-1; i++ {
+				nco *= 4
+			}
+			for a := 0; a < total; a++ {
+				for cc := 0; cc < nco; cc++ {
+					for pp := 0; pp < npl; pp++ {
+						revs := make([]c08Rev, n)
+						x, y, z := a, cc, pp
+						for i := 0; i < n; i++ {
+							f := red[x%len(red)]
+							x /= len(red)
+							revs[i] = c08Rev{Rev: int64(i + 1), Lc: f.lc, Av: f.av, Sp: f.sp, Hm: i == n-1}
+							if i < n-1 {
+								revs[i].Co = c08Co(i, y%4)
+								y /= 4
+							}
+							if i == 0 {
+								revs[i].Obj, revs[i].Sl, revs[i].Sm = place(i, z%2)
+								z /= 2
+							} else {
+								revs[i].Obj, revs[i].Sl, revs[i].Sm = place(i, pls[z%len(pls)])
+								z /= len(pls)
+							}
+						}
+						// both entry points for every combination; limit and scope cycled on
+						// counters that share no period with any dimension above; length 2: both scopes
+						l := limits[cyc%len(limits)]
+						for _, cl := range []bool{false, true} {
+							if n > 2 && cl != ((cyc/3)%2 == 1) {
+								continue
+							}
+							runBoth(c08Scn{Via: "arch", Revs: revs, Cur: true, Limit: l, Cl: cl})
+							runBoth(c08Scn{Via: "ctrl", Revs: revs, Limit: l, Cl: cl})
+							count += 2
+						}
+						cyc++
+					}
+				}
+			}
+		}
+		r.Extra["exhaustive_sliced_count"] = count
+	}
+
 	// ---- 2. malformed direct calls: every assignment of revisions {0..n}^n (ties, unsorted, zero)
 	// for n <= 3 with every flag combination; relations, limit and current drawn at random.
 	count = 0
@@ -704,8 +981,14 @@ func TestVerifC08(t *testing.T) {
 			if s.Fin && r.Rng.Intn(5) == 0 {
 				rv.Dt = true
 			}
+			// some or all of the objects live in ObjectSlices; now and then a slice is missing
+			if r.Rng.Intn(3) == 0 {
+				rv.Obj, rv.Sl = c08Split(r.Rng.Intn, rv.Obj)
+				rv.Sm = r.Rng.Intn(8) == 0
+			}
 			s.Revs = append(s.Revs, rv)
 		}
+		s.Cl = r.Rng.Intn(4) == 0
 		lim := c08Limits(n)
 		s.Limit = lim[r.Rng.Intn(len(lim))]
 		run(s)
@@ -724,6 +1007,9 @@ func TestVerifC08(t *testing.T) {
 			}
 			if s.Fin && i < n-1 && r.Rng.Intn(4) == 0 {
 				rv.Dt = true
+			}
+			if r.Rng.Intn(4) == 0 {
+				rv.Obj, rv.Sl = c08Split(r.Rng.Intn, rv.Obj)
 			}
 			s.Revs = append(s.Revs, rv)
 		}
